@@ -35,6 +35,7 @@ def check(repo: Repo, rep, tier):
     io_newline(repo, rep)
     io_encoding(repo, rep)
     line_model(repo, rep)
+    element_parens(repo, rep)
     from .C15 import parse_before_write
 
     parse_before_write(repo, rep)
@@ -50,6 +51,14 @@ def edit_calls(repo: Repo):
             if isinstance(c, ast.Call) and isinstance(c.func, ast.Attribute) and c.func.attr in ("replace", "insert", "delete") and any(k.arg == "filename" for k in c.keywords):
                 out.append((f, c))
     return out
+
+
+def _is_paren_expander(g) -> bool:
+    """prev_token/next_token walk that continues only over `(` / `)` and is bounded by token indices (the container's braces)"""
+    calls = {c.func.attr for c in body_nodes(g.node) if isinstance(c, ast.Call) and isinstance(c.func, ast.Attribute)}
+    consts = {x.value for x in body_nodes(g.node) if isinstance(x, ast.Constant) and isinstance(x.value, str)}
+    bounded = any(isinstance(x, ast.Compare) and any(isinstance(y, ast.Attribute) and y.attr == "index" for y in ast.walk(x)) and any(isinstance(o, (ast.LtE, ast.GtE, ast.Lt, ast.Gt)) for o in x.ops) for x in body_nodes(g.node))
+    return {"prev_token", "next_token"} <= calls and {"(", ")"} <= consts and bounded
 
 
 def range_prov(repo: Repo, rep):
@@ -137,6 +146,8 @@ def range_prov(repo: Repo, rep):
                                 audited = "Delete -> container hop / keyword hop (guarded by the isinstance test)"
                         if xn and xn[0].kind == "cond" and "ast.keyword" in norm(xn[0].ast):
                             audited = "test whether the node is a keyword value"
+                    if audited is None and m.rel == "_change.py" and x.attr == "prev_token" and _is_paren_expander(f):
+                        audited = "parenthesis expansion: steps outwards only over a matching `(` `)` pair whose token indices lie strictly inside the container's brace tokens"
                     if audited is not None:
                         rep.ok("R-RANGE-PROV", f, x, f"audited hop `{norm(x)}`: {audited}")
                     else:
@@ -177,6 +188,14 @@ def char_units(repo: Repo, rep):
                                 continue
                             bad += 1
                             rep.violation("R-CHAR-UNITS", f, c, f"{f.qualname} builds a source position from the ast byte offset `{norm(x)}`: with non-ASCII text before the call on the same line the edit lands at the wrong column and corrupts the file", construct=norm(x))
+    # the other direction: a character column must not be *converted* as if it were a byte offset
+    for f in repo.pkg_funcs():
+        if f.module.rel not in POSITION_MODULES:
+            continue
+        for c in body_nodes(f.node):
+            if isinstance(c, ast.Call) and isinstance(c.func, ast.Attribute) and c.func.attr in ("from_utf8_col", "utf8_to_col", "byte_to_char") or (isinstance(c, ast.Call) and isinstance(c.func, ast.Attribute) and c.func.attr == "line_to_offset" and any(isinstance(x, ast.Call) and isinstance(x.func, ast.Attribute) and x.func.attr in ("encode", "decode") for a in c.args for x in ast.walk(a))):
+                bad += 1
+                rep.violation("R-CHAR-UNITS", f, c, f"{f.qualname} converts a column with `{short(c, 50)}` as if it were a utf-8 byte offset; the columns in this pipeline come from asttokens and are already characters: with non-ASCII text before the snapshot on its line the edit is shifted to the left", construct=f"{f.qualname}:{c.func.attr}")
     if not bad:
         rep.ok("R-CHAR-UNITS", repo.module("_rewrite_code.py"), None, f"{n} position-building calls, none uses ast byte offsets", site="src/inline_snapshot: SourcePosition/start_of/end_of/line_to_offset/Change.replace call sites")
     rep.floor("R-CHAR-UNITS", "position-building calls", n, 8)
@@ -518,3 +537,45 @@ def line_model(repo: Repo, rep):
         good = rets and all(isinstance(r.value, ast.Call) and isinstance(r.value.func, ast.Attribute) and r.value.func.attr == "line_to_offset" for r in rets)
         if good:
             rep.ok("R-LINE-MODEL", off, rets[0], "offsets come from LineNumbers.line_to_offset (asttokens' own line table)")
+
+
+def element_parens(repo: Repo, rep):
+    rep.rule(
+        "R-ELEMENT-PARENS",
+        "the token range of a container element that apply_all hands to generic_sequence_update includes the parentheses around the element: every helper "
+        "that computes such a range (the nested *_token_range functions referenced in the element list) passes it through the parenthesis-expanding "
+        "function of _change.py (the one that walks prev_token / next_token while they are `(` and `)`), or generic_sequence_update does so itself.  "
+        "asttokens gives `1` for the element `(1)` and the string tokens for a string black wrapped in parentheses; deleting such an element or inserting "
+        "next to it would leave one parenthesis behind (`[(1), (2), (4)]` -> `[(1, 3]`, SyntaxError at session end)",
+    )
+    m = repo.module("_change.py")
+    expanders = []
+    for g in repo.pkg_funcs():
+        if g.module is not m:
+            continue
+        calls = {c.func.attr for c in body_nodes(g.node) if isinstance(c, ast.Call) and isinstance(c.func, ast.Attribute)}
+        consts = {x.value for x in body_nodes(g.node) if isinstance(x, ast.Constant) and isinstance(x.value, str)}
+        if _is_paren_expander(g):
+            expanders.append(g)
+    f = repo.func("_change.py::apply_all")
+    gsu = repo.find_func("_change.py", "generic_sequence_update")
+    names = {g.name for g in expanders}
+    central = gsu is not None and any(isinstance(c, ast.Call) and norm(c.func).split(".")[-1] in names for c in body_nodes(gsu.node))
+    helpers = [g for g in repo.pkg_funcs() if (g.parent is not None and g.parent == f) or (g.module is m and g.parent is None and g.cls is None and g is not f and g not in expanders)]
+    used = set()
+    for c in [x for x in body_nodes(f.node) if isinstance(x, ast.Call) and norm(x.func).endswith("generic_sequence_update") and len(x.args) > 3]:
+        for x in ast.walk(c.args[3]):
+            if isinstance(x, ast.Call) and isinstance(x.func, ast.Name):
+                used.add(x.func.id)
+    n = 0
+    for g in helpers:
+        if g.name not in used:
+            continue
+        n += 1
+        if central or any(isinstance(c, ast.Call) and norm(c.func).split(".")[-1] in names for c in body_nodes(g.node)):
+            rep.ok("R-ELEMENT-PARENS", g, g.node, f"{g.name}: range extended over enclosing parentheses")
+        else:
+            rep.violation("R-ELEMENT-PARENS", g, g.node, f"{g.qualname} returns the bare token range of the element: parentheses around it (`(1)`, a wrapped string) stay behind when the element is deleted or something is inserted next to it - unbalanced code, SyntaxError at session end", construct=f"{g.name}:no-parens")
+    rep.floor("R-ELEMENT-PARENS", "element range helpers of apply_all", n, 3)
+    if not expanders:
+        rep.violation("R-ELEMENT-PARENS", f, f.node, "_change.py has no function that extends a token range over enclosing parentheses", construct="no-expander")
